@@ -121,17 +121,6 @@ Proof.
   cbn [lower_run run_budget]. now rewrite lower_event_budget, IH.
 Qed.
 
-Lemma lower_event_ok : forall pw o ev, ev_ok o ev -> ev_ok o (fst (lower_event pw ev)).
-Proof.
-  intros pw o [s h n|s|s c] Hok; cbn [lower_event].
-  - destruct (get_session (w_srv (pw_world pw)) s); exact Hok.
-  - exact Hok.
-  - destruct (get_session (w_srv (pw_world pw)) s); [|exact Hok].
-    pose proof (lower_cmd_loud c (N.eqb s o) 0 (pt_get (pw_params pw) s)) as H1.
-    pose proof (lower_cmd_depth c 0 (pt_get (pw_params pw) s)) as H2.
-    destruct (lower_cmd 0 (pt_get (pw_params pw) s) c) as [c' ps']. cbn [fst ev_ok] in *. now rewrite H1, H2.
-Qed.
-
 (* the condition on arrivals (fresh session directories), read along the run on the wire *)
 Fixpoint wf_prun (pw : pworld) (evs : list event) : Prop :=
   match evs with
@@ -159,40 +148,35 @@ Proof.
   rewrite <- pworld_step_world. now apply IH.
 Qed.
 
-Lemma lower_run_ok : forall evs pw o, Forall (ev_ok o) evs -> Forall (ev_ok o) (lower_run fx pw evs).
-Proof.
-  induction evs as [|ev evs IH]; intros pw o H; [constructor|].
-  inversion H; subst. cbn [lower_run]. constructor; [now apply lower_event_ok|now apply IH].
-Qed.
-
-(* the condition on the observer's own commands (ev_clean), read along the run on the wire: it is about what Server.v
-   executes, i.e. about the lowered commands (a REMOVEPARAMETERS keeps the names that are parameters) *)
-Fixpoint clean_prun (o : sid) (pw : pworld) (evs : list event) : Prop :=
+(* the conditions on quiet flags (ev_ok) and on the observer's own commands (ev_clean), read along the run on the wire:
+   they are about what Server.v executes, i.e. about the lowered commands (a REMOVEPARAMETERS keeps the names that are
+   parameters) *)
+Fixpoint ok_prun (o : sid) (pw : pworld) (evs : list event) : Prop :=
   match evs with
   | [] => True
-  | ev :: r => ev_clean o (pw_world pw) (fst (lower_event pw ev)) /\ clean_prun o (pworld_step fx pw ev) r
+  | ev :: r => ev_ok o (pw_world pw) (fst (lower_event pw ev)) /\ ev_clean o (pw_world pw) (fst (lower_event pw ev))
+               /\ ok_prun o (pworld_step fx pw ev) r
   end.
 
-Lemma clean_prun_lower : forall evs pw o, clean_prun o pw evs -> clean_wrun fx o (pw_world pw) (lower_run fx pw evs).
+Lemma ok_prun_lower : forall evs pw o, ok_prun o pw evs -> ok_wrun fx o (pw_world pw) (lower_run fx pw evs).
 Proof.
   induction evs as [|ev evs IH]; intros pw o H; [exact I|].
-  destruct H as [H1 H2]. cbn [lower_run clean_wrun]. split; [exact H1|].
+  destruct H as [H1 [H2 H3]]. cbn [lower_run ok_wrun]. split; [exact H1|split; [exact H2|]].
   rewrite <- pworld_step_world. now apply IH.
 Qed.
 
 (* mirror_converges_partial for histories as they are on the wire: REMOVEPARAMETERS works on parameter names *)
 Theorem mirror_converges_wire : forall evs o,
-  wf_prun empty_pworld evs -> Forall (ev_ok o) evs -> clean_prun o empty_pworld evs -> small (run_budget evs) ->
+  wf_prun empty_pworld evs -> ok_prun o empty_pworld evs -> small (run_budget evs) ->
   let w := pw_world (pworld_run fx evs empty_pworld) in
   forall c ss, In c (w_clients w) -> c_id c = o -> get_session (w_srv w) o = Some ss ->
   forall q, own_node ss q = false ->
   mirror_get (c_mirror c) q = expected (sv_tree (w_srv w)) ss q.
 Proof.
-  intros evs o Hwf Hok Hcl Hsm w. subst w. rewrite pworld_run_lower. cbn [empty_pworld pw_world].
+  intros evs o Hwf Hok Hsm w. subst w. rewrite pworld_run_lower. cbn [empty_pworld pw_world].
   apply (mirror_converges_partial fx guard_on overlap_on push_on).
   - apply (wf_prun_lower evs empty_pworld Hwf).
-  - now apply lower_run_ok.
-  - apply (clean_prun_lower evs empty_pworld o Hcl).
+  - apply (ok_prun_lower evs empty_pworld o Hok).
   - now rewrite lower_run_budget.
 Qed.
 
